@@ -99,11 +99,17 @@ def is_escaped_bs(u):
     return u[0] == 'pair' or (u[0] == 'hex' and u[1] == 0x5C)
 
 
+def _bs_then(us, nums):
+    """an escaped backslash, then any number of line continuations, then one of `nums` written as a hex escape"""
+    us = [u for u in us if u[0] != 'cont']
+    return any(is_escaped_bs(a) and b[0] == 'hex' and b[1] in nums for a, b in zip(us, us[1:]))
+
+
 def region_clean_after_unescape(body):
-    """known finding C03-clean-after-unescape: a STRING token in which an escaped backslash (`\\\\` or U+005C written
-    in hex) is directly followed by a line break written as a hex escape"""
-    us = units(body)
-    return any(is_escaped_bs(a) and b[0] == 'hex' and b[1] in (0xA, 0xD, 0xC) for a, b in zip(us, us[1:]))
+    """source route of C03-string-backslash-sequence: a STRING token in which an escaped backslash (`\\\\` or U+005C
+    written in hex) is followed (line continuations aside) by a line break written as a hex escape — cleanstring,
+    which runs after unicodesub, then takes the second backslash and the decoded line break for a continuation"""
+    return _bs_then(units(body), (0xA, 0xD, 0xC))
 
 
 def region_escaped_dquote(body, quote):
@@ -115,7 +121,7 @@ def region_escaped_dquote(body, quote):
         if any(u == ('simple', '"') for u in us):
             return True
     else:
-        if any(is_escaped_bs(a) and b[0] == 'hex' and b[1] == 0x22 for a, b in zip(us, us[1:])):
+        if _bs_then(us, (0x22,)):
             return True
     return False
 
